@@ -16,7 +16,7 @@ RULE = ("call lists of length 0..12 over a stateful reference object (counter, l
         "(call list, mode, serializer, server); non-trivial = list has >= 2 calls")
 ASSUMPTIONS = ["oneway-marked methods and iterator-returning methods are not batched (documented as unsupported)",
                "an exposure failure may surface at submission instead of at its position (the statement allows both)"]
-REQUIRED_REACH = ["copied_batchproxy_equal", "impatient_batch_state_equal", "batch_equal", "failure_at_position", "failure_at_submit", "oneway_equal", "state_compared", "reused_batchproxy_equal", "forgotten_oneway_batch_equal", "long_batches"]
+REQUIRED_REACH = ["deferred_result_reading", "copied_batchproxy_equal", "impatient_batch_state_equal", "batch_equal", "failure_at_position", "failure_at_submit", "oneway_equal", "state_compared", "reused_batchproxy_equal", "forgotten_oneway_batch_equal", "long_batches"]
 SHARD_TIMEOUT = {"quick": 200, "thorough": 2400}
 
 
@@ -384,7 +384,7 @@ def check_case(fx, Ref, calls, oneway, sername, rec, n):
 SUBMIT_FAILURES = ("hidden", "_priv", "doesnotexist")
 
 
-def check_reuse(fx, Ref, batches, sername, rec, n):
+def check_reuse(fx, Ref, batches, sername, rec, n, deferred=False):
     """several batches submitted through ONE BatchProxy (re-use is a documented feature) against the same calls made one by one:
     every batch must consist of exactly the calls queued since the previous submission"""
     P = fx.P
@@ -392,13 +392,40 @@ def check_reuse(fx, Ref, batches, sername, rec, n):
     X, Y = Ref(), Ref()
     fx.daemon.register(X, idx)
     fx.daemon.register(Y, idy)
-    pay = {"batches": batches, "serializer": sername, "servertype": fx.servertype}
-    rec.case(("reuse", repr(batches), sername, fx.servertype), nontrivial=True, sample=pay if rec.evaluations % 300 == 7 else None)
+    pay = {"batches": batches, "serializer": sername, "servertype": fx.servertype, "deferred": deferred}
+    rec.case(("reuse", repr(batches), sername, fx.servertype, deferred), nontrivial=True, sample=pay if rec.evaluations % 300 == 7 else None)
     outcomes = []
     try:
         with fx.proxy(idx, serializer=sername) as px, fx.proxy(idy, serializer=sername) as py:
             b = P.client.BatchProxy(px)
-            for calls, oneway in batches:
+            if deferred:
+                # "submit everything, then read everything": each batch runs when it is submitted; its results are read only after all
+                # batches have been submitted through the same BatchProxy
+                rec.count("deferred_result_reading")
+                pending = []
+                for calls, oneway in batches:
+                    sres, sexc = run_sequential(P, py, calls)
+                    for name, args, kwargs in calls:
+                        getattr(b, name)(*args, **kwargs)
+                    try:
+                        it, subexc = b(oneway=oneway), None
+                    except Exception as x:
+                        it, subexc = None, x
+                    dumpx = px._pyroInvoke("dump", (), {})
+                    dumpy = py._pyroInvoke("dump", (), {})
+                    pending.append((calls, oneway, sres, sexc, it, subexc, dumpx, dumpy))
+                for calls, oneway, sres, sexc, it, subexc, dumpx, dumpy in pending:
+                    bres, bexc, where, ret = [], subexc, ("submit" if subexc is not None else None), None
+                    if subexc is None and oneway:
+                        bres, ret = None, it
+                    elif subexc is None:
+                        try:
+                            for v in it:
+                                bres.append(v)
+                        except Exception as x:
+                            bexc, where = x, "position"
+                    outcomes.append((calls, oneway, sres, sexc, bres, bexc, where, ret, dumpx, dumpy))
+            for calls, oneway in ([] if deferred else batches):
                 sres, sexc = run_sequential(P, py, calls)
                 bres, bexc, where, ret = run_batch(P, px, calls, oneway, b)
                 dumpx = px._pyroInvoke("dump", (), {})
@@ -542,7 +569,7 @@ def run_shard(shard, rec):
                 # any batch may fail, at a position or at submission (unexposed / private / missing name): the BatchProxy is cleared all the same
                 batches.append((gen_calls(r, length, r.choice([None, None] + list(range(length)))), r.random() < 0.4))
             n += 1
-            check_reuse(fx, Ref, batches, shard["serializer"], rec, n)
+            check_reuse(fx, Ref, batches, shard["serializer"], rec, n, deferred=r.random() < 0.4)
         for _ in range(max(8, shard["n"] // 3)):
             if rec.should_stop(30):
                 break
@@ -563,7 +590,7 @@ def replay(payload, rec):
     fx = fixture.Fixture(servertype=payload["servertype"], COMMTIMEOUT=0.0)
     try:
         if "batches" in payload:
-            check_reuse(fx, Ref, [(c, o) for c, o in payload["batches"]], payload["serializer"], rec, 1)
+            check_reuse(fx, Ref, [(c, o) for c, o in payload["batches"]], payload["serializer"], rec, 1, deferred=payload.get("deferred", False))
         elif payload.get("copied"):
             tup = lambda calls: [(c[0], tuple(c[1]), c[2]) for c in calls]
             check_copied(fx, Ref, tup(payload["prefix"]), tup(payload["own1"]), tup(payload["own2"]), payload["first"], payload["serializer"], rec, 1)
